@@ -129,10 +129,10 @@ theorem failure_reported_counterexample :
   decide
 
 /-- Full-strength `claimed_success_is_complete` fails: SetIndexFinished (call
-    19: M M P R, L Z R, L S K R, A B D B F R, X R, Y) returns DeadlineExceeded; Index returns a nil error and a report with
+    20: M M P R, L Z R, L S K R, A B D B F C R, X R, Y) returns DeadlineExceeded; Index returns a nil error and a report with
     Success = true, but the manifest is not recorded as scanned. -/
 theorem claimed_success_counterexample :
-    let r := index sem0 (faultAt 19 .deadline) cfg0 [1] {} false
+    let r := index sem0 (faultAt 20 .deadline) cfg0 [1] {} false
     r.err = none ∧ r.report.map (·.success) = some true ∧ r.st.manifestScanned [1] cfg0.scanners = false := by
   decide
 
@@ -151,10 +151,10 @@ theorem retry_converges_counterexample :
   decide
 
 /-- The same through a lost reply: SetIndexFinished commits but the caller sees
-    an error (call 19); the manifest is recorded as scanned while the stored
+    an error (call 20); the manifest is recorded as scanned while the stored
     report is the error report. -/
 theorem lost_reply_counterexample :
-    let r := index sem0 (faultAt 19 .commitErr) cfg0 [1] {} false
+    let r := index sem0 (faultAt 20 .commitErr) cfg0 [1] {} false
     r.st.manifestScanned [1] cfg0.scanners = true ∧
     (r.st.report? [1]).map (fun x => (x.success, x.err)) = some (false, true) := by
   decide
